@@ -91,3 +91,14 @@ Definition valid_tvs (l : list TV) : Prop := Forall (fun tv => valid_time (fst t
 Definition valid_times (c : sched) : Prop :=
   (forall e, In e (excs c) -> valid_tvs (se_tvs e)) /\
   (forall w, weekly c = Some w -> forall day, In day w -> valid_tvs day).
+
+(* ---- what datetime_to_time (schedule.py:236-247) must satisfy, for ANY local-time rule:
+   the instant it returns is one whose local wall-clock reading is the requested (date, time),
+   whenever such an instant exists (on a day with a UTC-offset change a reading may not exist, or
+   exist twice: then nothing is required beyond being one of them).  The code meets this by handing
+   the whole wall-clock tuple to time.mktime with isdst = -1; mktime/localtime are trusted CPython and
+   are exercised, not modelled: `normalise` in ScheduleEval.v is their behaviour under a constant
+   offset (TZ=UTC), and the harness judges real objects by local wall-clock reading in two zones with
+   daylight-saving rules across both change days. *)
+Definition dtt_requirement (localtime : Z -> D4 * T4) (dtt : D4 -> T4 -> Z) : Prop :=
+  forall d t, (exists e, localtime e = (d, t)) -> localtime (dtt d t) = (d, t).
